@@ -164,7 +164,7 @@ func workerWCut(t *testing.T, out *WorkerOut) {
 				out.Notes[v.Sig]++
 			}
 		}
-		if mine && len(out.Failures) < *flagMaxViol {
+		if mine && keepFailure(len(out.Failures), res) {
 			res.HistText = res.histText()
 			out.Failures = append(out.Failures, res)
 		}
